@@ -175,6 +175,8 @@ def run_impl(case):
 
                 @cache.bloom(capacity=case["capacity"], false_positives=case["fp"], check_false_positive=case["check_fp"], name="el:{x}")
                 async def pred(x):
+                    if len(case["elems"]) % 2:      # a predicate answering with truthy / falsy values that are not bools (a count)
+                        return 3 if truth[x] else 0
                     return truth[x]
                 outs = []
                 for op, e, form in case["ops"]:
@@ -205,7 +207,8 @@ def to_coq(case, obs):
     kind = case["kind"]
     if kind == "bits":
         ops = [C("BIncr", [N(i) for i in op[1]], N(op[2]), Z(op[3])) if op[0] == "incr" else C("BGet", [N(i) for i in op[1]], N(op[2])) for op in case["ops"]]
-        return C("CBits", N(case["v0"]), ops, [[N(x) for x in o] for o in obs["outs"]], N(obs["final"]))
+        # a negative output (never produced by the pinned tree: counters saturate at 0) is shown to the oracle as a value beyond every field width
+        return C("CBits", N(case["v0"]), ops, [[N(x) if x >= 0 else N((1 << 40) - x) for x in o] for o in obs["outs"]], N(obs["final"]))
     if kind == "idx":
         if obs["err"]:
             return C("CIdx", [], N(case["nalg"]), N(case["k"]), N(case["m"]), [N(99999999)])
